@@ -56,6 +56,13 @@ func testC10(t *testing.T, kind sim.Kind) {
 		cfg.MaxReplicas = 4
 		exportAt := rapid.IntRange(0, maxStepsL0()/2).Draw(c.rt, "export_at")
 		who := rapid.IntRange(0, cfg.Replicas-1).Draw(c.rt, "export_replica")
+		if cfg.WideFirst && rapid.Bool().Draw(c.rt, "export_after_solo") {
+			// export the replica whose clock walked without gaps, after the walk
+			who = 0
+			if exportAt < cfg.Replicas+cfg.SoloRun {
+				exportAt = cfg.Replicas + cfg.SoloRun
+			}
+		}
 		var tw *c10Twin
 		tombBefore, staleAfter := false, 0
 		c.j.Header = map[string]interface{}{"config": cfg, "export_at": exportAt, "export_replica": who}
